@@ -184,3 +184,66 @@ contract(
     ],
     replay=False,
 )
+
+
+# ===== bounded stand-in (labelled bounded, never counted as proved): find_block_config =================================================
+# The block search (nested loops over candidate sizes with float costs) is outside the executor's subset. For every instance of a stated
+# grid, and for two call orders (the function must not depend on earlier calls), the block it returns is re-validated by try_block_config
+# - which IS proved above - with the same arguments, and the two layouts are compared.
+from pyvc import replay as _rp  # noqa: E402
+
+
+def _find_block_config_grid(tier, seed):
+    import itertools
+    from ethosu.vela.shape4d import Shape4D
+    out = dict(name="find_block_config: every returned block is accepted by (the proved) try_block_config with the same arguments and carries the same layout; "
+                    "results do not depend on the order of earlier calls",
+               label="bounded",
+               bound="6 accelerators x {conv 1x1/3x3, depthwise 3x3, max-pool 2x2, elementwise (tensor / scalar second input)} x 4 OFM shapes x IFM bits {8, 16} "
+                     "x lut_banks {0, 2} x scaled {F, T}; each instance evaluated in two call orders (native evaluation of the real code)",
+               cases=0, violations=[], known_lines=[])
+    bad = []
+    shapes = [(16, 16, 16), (48, 37, 17), (1, 64, 8), (7, 7, 130)] if tier == "quick" else [(16, 16, 16), (48, 37, 17), (1, 64, 8), (7, 7, 130), (33, 1, 3), (2, 200, 40)]
+    ops = [(NpuBlockType.ConvolutionMxN, Kernel(1, 1), False, False), (NpuBlockType.ConvolutionMxN, Kernel(3, 3), False, False),
+           (NpuBlockType.ConvolutionDepthWise, Kernel(3, 3), False, False), (NpuBlockType.Pooling, Kernel(2, 2, 2, 2), False, False),
+           (NpuBlockType.ElementWise, Kernel(1, 1), True, False), (NpuBlockType.ElementWise, Kernel(1, 1), True, True)]
+    insts = []
+    for (h, w, d), (bt, k, has2, scalar), bits, lut, scaled in itertools.product(shapes, ops, (8, 16), (0, 2), (False, True)):
+        ofm = Shape4D(1, h, w, d)
+        ifm = Shape4D(1, (h - 1) * k.stride.y + k.area_height(), (w - 1) * k.stride.x + k.area_width(), d if bt != NpuBlockType.ConvolutionMxN else 24)
+        ifm2 = ofm if (has2 and not scalar) else None
+        insts.append((bt, ofm, ifm, ifm2, scalar, bits, k, lut, scaled))
+
+    def layout_of(c):
+        lay = c.layout
+        return (lay.ib_start, lay.ib_end, lay.ib_start2, lay.ab_start, lay.lut_start)
+
+    for name, arch in ARCHS.items():
+        for order in (insts, list(reversed(insts))):
+            for (bt, ofm, ifm, ifm2, scalar, bits, k, lut, scaled) in order:
+                out["cases"] += 1
+                cfg = aa.find_block_config(arch, bt, ofm, ifm, ifm2, scalar, bits, k, lut, scaled, resampling_mode.NONE)
+                if cfg is None:
+                    continue
+                blk = Block(cfg.ofm_block.width, cfg.ofm_block.height, cfg.ofm_block.depth)
+                chk = aa.try_block_config(blk, arch, bt, ofm, ifm, ifm2, scalar, bits, cfg.is_partkernel, k, lut, scaled, resampling_mode.NONE)
+                msg = None
+                if chk is None:
+                    msg = "block %r is rejected by try_block_config" % (blk,)
+                elif layout_of(chk) != layout_of(cfg):
+                    msg = "layout %r differs from the layout try_block_config derives for the same block %r" % (layout_of(cfg), layout_of(chk))
+                if msg and len(bad) < 5:
+                    bad.append("find_block_config(%s, %s, ofm=%r, ifm_bits=%d, kernel %dx%d, lut_banks=%d, scaled=%s): %s" % (
+                        name, bt.name, ofm, bits, k.width, k.height, lut, scaled, msg))
+    if bad:
+        import json
+        import os
+        d = os.path.join(_rp.OUT, "replays", "C15")
+        os.makedirs(d, exist_ok=True)
+        path = os.path.join(d, "bounded_find_block_config.json")
+        json.dump(dict(property="C15", obligation="bounded:find_block_config grid", failures=bad), open(path, "w"), indent=1)
+        out["violations"].append("VIOLATION property=C15 replay=%s" % path)
+    return out
+
+
+_rp.BOUNDED_HOOKS.setdefault("C15", []).append(_find_block_config_grid)
